@@ -17,7 +17,10 @@ SIMD = ["-mmmx", "-DINTEL_MMX", "-msse", "-DINTEL_SSE", "-msse2", "-DINTEL_SSE2"
         "-msse3", "-DINTEL_SSE3", "-mssse3", "-DINTEL_SSSE3", "-msse4.1",
         "-DINTEL_SSE41", "-msse4.2", "-DINTEL_SSE42", "-mavx", "-DINTEL_AVX"]
 SAN_AU = ["-fsanitize=address,undefined", "-fno-sanitize-recover=all",
-          "-fno-sanitize=shift-base", "-fno-omit-frame-pointer"]
+          "-fno-sanitize=shift-base", "-fno-omit-frame-pointer",
+          # uninitialised locals read deterministic garbage (0xFE..) instead of whatever the stack held: together with
+          # ASan's malloc_fill_byte this lets the byte-exact oracles see a lost initialisation (MSan is unusable here)
+          "-ftrivial-auto-var-init=pattern"]
 
 FLAVOURS = {
     # name: (cc, cflags, ldflags)
